@@ -1,7 +1,7 @@
 (* C13 — Down- and resampling preserve branching structure and geometry. *)
 From Coq Require Import List ZArith QArith Bool.
 Import ListNotations.
-From Navis Require Import model.Forest model.Ops model.Dist model.Sampling proofs.ForestWF proofs.OpsWF proofs.SamplingProofs.
+From Navis Require Import proofs.Metric model.Forest model.Ops model.Dist model.Sampling proofs.ForestWF proofs.OpsWF proofs.SamplingProofs.
 Open Scope Z_scope.
 
 Theorem C13_downsample_wf : forall t factor preserve, WF t -> WF (downsample t factor preserve).
@@ -52,3 +52,17 @@ Print Assumptions C13_end_points_kept.
 Theorem C13_resample_topology_wf_partial : forall t ends plan, WF t -> WF (resample_topology t ends plan).
 Proof. exact resample_topology_wf. Qed.
 Print Assumptions C13_resample_topology_wf_partial.
+
+(* cable length: dropping interior nodes of a neurite (downsampling) never lengthens it, and a node placed ON an edge
+   (linear interpolation: d y m + d m z = d y z) leaves it unchanged - for ANY distance function obeying the triangle inequality *)
+Theorem C13_thinning_never_lengthens : forall (A : Type) (d : A -> A -> Q) (keep : A -> bool), triangle d ->
+  forall p x, (path_len d x (thin keep p) <= path_len d x p)%Q.
+Proof. intros A. exact (@thinning_never_lengthens A). Qed.
+Print Assumptions C13_thinning_never_lengthens.
+Theorem C13_thinning_keeps_ends : forall (A : Type) (keep : A -> bool) p x, p <> [] -> last (thin keep p) x = last p x.
+Proof. intros A. exact (@thin_last A). Qed.
+Print Assumptions C13_thinning_keeps_ends.
+Theorem C13_interpolated_point_keeps_length : forall (A : Type) (d : A -> A -> Q) x y m p, (d x m + d m y == d x y)%Q ->
+  (path_len d x (m :: y :: p) == path_len d x (y :: p))%Q.
+Proof. intros A. exact (@subdividing_keeps_length A). Qed.
+Print Assumptions C13_interpolated_point_keeps_length.
